@@ -357,10 +357,11 @@ HsResults(s, m) ==
   ELSE LET s0 == Resynced(s, m) IN
        IF m.ms < s0.recvSeq THEN DupResults(s0, m)
        ELSE IF m.ms > s0.recvSeq
-       THEN IF s0.role \in Buffers /\ m.lo = 0 /\ m.hi = Units
-            THEN {Res([s0 EXCEPT !.ooo = @ \cup {m}], <<>>)}             \* kept until it fits
+       THEN IF s0.role \in Buffers
+            THEN {Res([s0 EXCEPT !.ooo = @ \cup {m}], <<>>)}             \* kept (fragments too) until it fits
             ELSE {Res(s0, <<>>)}                                          \* out of order: ignored
-       ELSE {Drain(Reassemble(s0, m))}
+       ELSE {Drain(Reassemble([s0 EXCEPT !.postHvr = FALSE], m))}       \* (a fragment of the awaited ServerHello
+                                                                         \*  already ends the post-HVR wait)
 
 \* A protected Finished that was kept because it arrived before the keys: consumed once they exist.
 EarlyFin(r) ==
